@@ -41,6 +41,9 @@ WITNESSES = {
     "dc": ["WitGeneral", "WitStash2", "WitNoNew", "WitEmptyMd", "WitDup", "WitLater", "WitDupKey"],
     "dc2v": ["WitMultiView", "WitFiltered"],
     "dcpm": ["WitZero"],
+    # the reader set grows in the middle of the history / the instrument is created after a collection
+    "d+c": ["WitOldAfterGrowth", "WitLateReader", "WitBeforeCreate"],
+    "d+d": ["WitOldAfterGrowth"],
 }
 
 
@@ -52,6 +55,9 @@ def _configs(thorough, dev=()):
         "dc2v": M.ModelCfg("T_dc", "F_all_k1", "AS_perm", handles=1, maxadd=2 if not thorough else 3, maxcol=3, dev=dev),
         "dcpm": M.ModelCfg("T_dc", "F_all", "AS_two", handles=1, amounts="AM_pm", maxadd=3, maxcol=2, dev=dev),
         "ddc": M.ModelCfg("T_ddc", "F_all", "AS_two", handles=1, maxadd=3 if thorough else 2, maxcol=4 if thorough else 3, dev=dev),
+        # the reader set grows: one delta reader (fast path) first, a second reader is registered later
+        "d+c": M.ModelCfg("T_dc", "F_all", "AS_two", init=1, handles=1, maxadd=3 if thorough else 2, maxcol=4 if thorough else 3, dev=dev),
+        "d+d": M.ModelCfg("T_dd", "F_all", "AS_two", init=1, handles=1, maxadd=2, maxcol=4 if thorough else 3, dev=dev),
     }
 
 
@@ -60,6 +66,7 @@ def _asimpl(thorough):
         "d": M.ModelCfg("T_d", "F_all", "AS_perm", handles=2, maxadd=3, maxcol=3, dev=MY_DEVS),
         "dc": M.ModelCfg("T_dc", "F_all", "AS_two", handles=2, maxadd=3 if thorough else 2, maxcol=3, dev=MY_DEVS),
         "dc2v": M.ModelCfg("T_dc", "F_all_k1", "AS_two", handles=2 if thorough else 1, maxadd=2, maxcol=3, dev=MY_DEVS),
+        "d+c": M.ModelCfg("T_dc", "F_all", "AS_two", init=1, handles=1, maxadd=2, maxcol=3, dev=MY_DEVS),
     }
 
 
@@ -85,11 +92,14 @@ def generate(ctx):
     wcfg = {"d": M.ModelCfg("T_d", "F_all", "AS_perm", handles=2, maxadd=4, maxcol=4),
             "dc": M.ModelCfg("T_dc", "F_all", "AS_dup", handles=2, maxadd=4, maxcol=4),
             "dc2v": M.ModelCfg("T_dc", "F_all_k1", "AS_perm", handles=1, maxadd=3, maxcol=3),
-            "dcpm": M.ModelCfg("T_dc", "F_all", "AS_two", handles=1, amounts="AM_pm", maxadd=3, maxcol=3)}
+            "dcpm": M.ModelCfg("T_dc", "F_all", "AS_two", handles=1, amounts="AM_pm", maxadd=3, maxcol=3),
+            "d+c": M.ModelCfg("T_dc", "F_all", "AS_two", init=1, handles=1, maxadd=4, maxcol=4),
+            "d+d": M.ModelCfg("T_dd", "F_all", "AS_two", init=1, handles=1, maxadd=4, maxcol=4)}
     for k, names in WITNESSES.items():
         jobs += [M.witness_job(wcfg[k], w) for w in names]
     # shortest histories on which the as-implemented model breaks a clause (directed at the defects)
     jobs += [M.witness_job(asimpl[k], "WitBad") for k in ("d", "dc", "dc2v")]
+    jobs += [M.witness_job(M.ModelCfg("T_dc", "F_all", "AS_two", init=1, handles=1, maxadd=3, maxcol=4, dev=[M.D1]), "WitOldAfterGrowth")]
     nwit = len(jobs)
     # one behaviour per distinct state reached by a Collect, small bounds
     small = [
@@ -97,6 +107,8 @@ def generate(ctx):
         M.ModelCfg("T_dc", "F_all", "AS_perm", handles=2, maxadd=2, maxcol=2),
         M.ModelCfg("T_ddc", "F_all", "AS_two", handles=1, maxadd=2, maxcol=3 if thorough else 2),
         M.ModelCfg("T_dc", "F_all_k1", "AS_two", handles=2, maxadd=2, maxcol=2),
+        M.ModelCfg("T_dc", "F_all", "AS_two", init=1, handles=1, maxadd=2, maxcol=3),      # second reader arrives late
+        M.ModelCfg("T_cd", "F_all", "AS_two", init=1, handles=1, maxadd=2, maxcol=3),
     ]
     jobs += [M.bfs_job(mc, limit=4000 if thorough else 400, seed=ctx.seed) for mc in small]
     # random walks, deeper
@@ -105,6 +117,7 @@ def generate(ctx):
         M.ModelCfg("T_ddc", "F_all", "AS_perm", handles=2, maxadd=10, maxcol=8),
         M.ModelCfg("T_dc", "F_all_k1", "AS_dup", handles=2, maxadd=8, maxcol=6),
         M.ModelCfg("T_dc", "F_all", "AS_perm", handles=1, amounts="AM_pm2", maxadd=8, maxcol=6),
+        M.ModelCfg("T_ddc", "F_all", "AS_perm", init=1, handles=2, maxadd=8, maxcol=8),    # readers arrive late
     ]
     jobs += [M.sim_job(mc, num=300 if thorough else 80, depth=24, seed=ctx.seed * 101 + i) for i, mc in enumerate(deep)]
     behs = M.run_jobs(ctx, jobs, parallel=4)
@@ -124,9 +137,11 @@ def random_programs(ctx, n, x0):
         temps = [rng.choice(["delta", "cum"]) for _ in range(nr)]
         two_views = rng.random() < 0.25
         filters = [[0], rng.choice([[1], [1, 2], []])] if two_views else [[0]]
+        late = [rng.choice(["delta", "cum"]) for _ in range(rng.choice([1, 1, 2]))] if rng.random() < 0.3 else []
         progs.append(M.random_program(rng, x0 + i, mode="api", temps=temps, filters=filters,
                                       handles=2 if rng.random() < 0.25 else 1, nops=rng.randrange(100, 401),
-                                      nsets=rng.randrange(10, 21), nkeys=4, nvals=3, p_collect=rng.choice([0.05, 0.15, 0.3])))
+                                      nsets=rng.randrange(10, 21), nkeys=4, nvals=3, p_collect=rng.choice([0.05, 0.15, 0.3]),
+                                      late=late, collect_first=rng.random() < 0.2))
     return progs
 
 
@@ -144,10 +159,10 @@ def execute_and_validate(ctx, exe, programs, tag):
 def run(ctx):
     thorough = ctx.tier == "thorough"
     ctx.assumptions += [
-        "sum aggregation only (counters / up-down counters), one instrument, one meter; readers are registered before the first measurement",
+        "sum aggregation only (counters / up-down counters), one instrument, one meter; readers registered in the middle of a history are exercised, but what such a late reader itself is handed (values, start of its first delta interval) is left open",
         "timestamps are compared as ranks (SDK start, k-th collection); the clock is read strictly increasing between operations",
         "exhaustive TLC results are for the stated small constants (<= 3 readers, <= 2 handles, <= 2 view streams, <= 4 Adds, <= 4 Collects); longer histories are sampled",
-        "amounts are small integers (doubles: integral multiples of 0.25 / 1 / 1024, exactly representable sums); floating-point rounding is not examined",
+        "abstract amounts are small integers, concretised as n*M: doubles M in {1, 0.25, 1024} (exactly representable sums; floating-point rounding is not examined), integers M in {1, 3, a huge odd multiplier such as 2^53+1} with every sum exact in int64 but not in double",
         "attribute keys are NUL-terminated (the filter's use of key.data() is C19's finding F12)",
     ]
     ctx.extra["rule"] = ("states/transitions: TLC on MetricsSync.tla (exhaustive configs, witness and generation runs) + monitor runs; "
@@ -158,8 +173,8 @@ def run(ctx):
     # 1. exhaustive model checking --------------------------------------------------------------------
     ideal = _configs(thorough)
     asimpl = _asimpl(thorough)
-    order = ["d", "dc", "dc2v", "dcpm", "ddc"]
-    M.model_check(ctx, [ideal[k] for k in order] + [asimpl[k] for k in ("d", "dc", "dc2v")],
+    order = ["d+c", "d", "dc", "dc2v", "dcpm", "ddc", "d+d"]
+    M.model_check(ctx, [ideal[k] for k in order] + [asimpl[k] for k in ("d", "dc", "dc2v", "d+c")],
                   workers=4 if thorough else 3, parallel=3 if thorough else 2, timeout_s=2400 if thorough else 900)
     _t(ctx, "model checking")
     # 2. behaviours of the model ------------------------------------------------------------------------
